@@ -42,6 +42,9 @@ ASSUMPTIONS = [
 SEQ_STEPS = ['classify-B', 'grid-0.5', 'grid-1', 'grid-25', 'recession',
              'rise', 'rise-ref']
 COARSE = ('uniform', 2.0, 3600, 4.0)
+# the whole record moved so that its maximum is the decimal 12.3 on a 0.3 mm
+# grid (12.3 / 0.3 = 41.00000000000001 in binary floating point)
+DECIMAL_MAX = ('uniform', 2.0, 3600, 0.3)
 CONFIGS = [
     ('uniform', 2.0, 3600, 1.0), ('uniform', 0.5, 1800, 0.5),
     ('convex', 2.0, 1200, 0.3), ('concave', 0.5, 3600, 2.5),
@@ -91,6 +94,16 @@ def coarse_space(pairs):
                  % ((pairs,) + COARSE), size, decode)
 
 
+def decimal_max_space(pairs):
+    size, decode_word = events.word_space_events(pairs)
+
+    def decode(i):
+        return {'config': list(DECIMAL_MAX), 'perturb': 'none',
+                'word': decode_word(i), 'record_maximum': 12.3}
+    return Space('workflow/(S D)^%d/record maximum exactly 12.3 mm on a 0.3 '
+                 'mm grid' % pairs, size, decode)
+
+
 def sequence_space(depth):
     """Every sequence of up to `depth` workflow steps (repeats allowed, steps
     that fail are simply failed attempts) from the C20 dataset: the
@@ -119,6 +132,7 @@ def spaces(tier):
     for config in CONFIGS:
         out.append(word_space(2, config))
     out.append(coarse_space(3))
+    out.append(decimal_max_space(2 if tier == 'quick' else 3))
     out.append(sequence_space(4 if tier == 'quick' else 5))
     if tier == 'thorough':
         for config in CONFIGS:
@@ -363,6 +377,15 @@ def run_case(case):
         return Result(nontrivial=False, outcome='outside-family',
                       counters={'words_outside_the_truth_family': 1})
     ds = perturb(ds, case['perturb'])
+    if case.get('record_maximum') is not None:
+        top = max(z for z in ds['level'] if z is not None)
+        shift = case['record_maximum'] - top
+        ds['level'] = [None if z is None else z + shift
+                       for z in ds['level']]
+        if max(z for z in ds['level'] if z is not None) != case[
+                'record_maximum']:
+            # rounding moved the maximum: not a member
+            return Result(nontrivial=False, outcome='maximum-not-exact')
     try:
         connection, errors = events.workflow_db(ds, step)
     except Exception as exc:  # pylint: disable=broad-except
